@@ -1,3 +1,4 @@
 pub mod builtins;
 pub mod corpus;
 pub mod tree;
+pub mod core;
